@@ -444,6 +444,10 @@ def build7(m):
         'STACK_SORTED(delimiters)',
         'forall(lambda j: delimiters[j].end <= (start if not is_none(in_delimiter_run) else (i - 1 if in_image else i)), 0, len(delimiters))']
     fc.note = (fc.note or '') + '; the stack it hands to process_emphasis is sorted by position (termination of process_emphasis)'
+    # C06 (per-kind opener bottoms): a closer that finds no opener lowers the bound of ITS kind only
+    c.ghost_after = dict(c.ghost_after or {})
+    c.ghost_after['star_bottom = bottom'] = [('__assert__', ("closer.type[0] == '*'", 'C06'))]
+    c.ghost_after['underscore_bottom = bottom'] = [('__assert__', ("closer.type[0] == '_'", 'C06'))]
     # stepping stone (proved where it stands): the closer still sits at the current position when it is removed
     c.ghost_before = dict(c.ghost_before or {})
     c.ghost_before['delimiters.remove(closer)'] = [
